@@ -81,7 +81,7 @@ PROPS["C03"] = {
 }
 
 PROPS["C07"] = {
-    "lean": ["WsVerif.Props.C07", "WsVerif.Props.C07Stream", "WsVerif.Bridge.C07", "WsVerif.Bridge.C04"],
+    "lean": ["WsVerif.Props.C07", "WsVerif.Props.C07Stream", "WsVerif.Props.C07Install", "WsVerif.Bridge.C07", "WsVerif.Bridge.C04"],
     "rule": "Reader wiring: 16 (quick) / 316 (thorough) text payloads (valid, truncated, overlong, surrogate, > U+10FFFF) under EVERY split into "
             "three fragments, with and without ping/pong (non-UTF-8 payloads) between the fragments, followed on the same reader by a binary "
             "message holding invalid UTF-8 and another text message; chunkings {whole,1,2,5}; through ReadMessage, ReadData, Reader+ReadAll "
